@@ -427,10 +427,16 @@ class Ctx:
             try:
                 test()
                 break
-            except AssertionError:
+            except hypothesis.errors.Unsatisfiable as e:
+                raise HarnessError('generator unsatisfiable: %s' % e)
+            except Exception as e:
+                # AssertionError: our own failure signal after Hypothesis' final replay. Anything else while a target bucket is set
+                # is an internal error of the shrinker (seen: ValueError in choice_to_index): keep the smallest failing case seen so far.
                 b = state['target']
                 if b is None:
                     raise
+                if not isinstance(e, AssertionError):
+                    self.note('hypothesis shrinker aborted with %s: %s' % (type(e).__name__, e))
                 reported.add(b)
                 # the last raising execution is Hypothesis' final replay of the minimal example
                 f = rec.failures.get(b)
@@ -444,8 +450,6 @@ class Ctx:
                     if det:
                         f['detail'] = det[0]
                 remaining -= min(state['n'], remaining)
-            except hypothesis.errors.Unsatisfiable as e:
-                raise HarnessError('generator unsatisfiable: %s' % e)
 
     def exhaustive(self, what):
         self.exhaustive_layers.append(what)
